@@ -63,7 +63,7 @@ def gen_bodies(rng, n):
 
 def differential(chk, drv, rng, tier):
     bodies = gen_bodies(rng, 12 if tier == "quick" else 150)
-    cases = [{"id": i, "kind": k, "data": b64(b)} for i, (k, b, _) in enumerate(bodies)]
+    cases = [{"id": i, "kind": k, "data": b64(b), "scribble": 1 if (k == "tree" and i % 2) else 0} for i, (k, b, _) in enumerate(bodies)]
     obs, rc, err = R.drv(drv, "parse", cases)
     if len(obs) != len(cases):
         chk.inconc("parse driver returned %d of %d" % (len(obs), len(cases)))
